@@ -1,7 +1,7 @@
 """Maven parts of C01, C02, C10 (DESIGN 6.4, 8).
 
 Model: coq/Semver/MavenParse.v (parser), Maven.v (comparator, canon), MavenDomain.v (D_mvn),
-Spec/MavenSpec.v (ComparableVersion 3.6).  Theorems: Properties/C01_maven.v, C02_maven.v, C10_maven.v.
+Spec/MavenSpec.v (ComparableVersion 3.8.x).  Theorems: Properties/C01_maven.v, C02_maven.v, C10_maven.v.
 """
 from lib import sx, parse_sx
 from gen import versions
@@ -207,7 +207,7 @@ def c02(ctx):
                     known = F_C02_NULLDASH
                 elif model_disagrees and fixed_agrees:
                     known = F_C02_ZERO
-                ctx.violations.append({"what": "Maven: ordering differs from ComparableVersion (Maven 3.6 algorithm)",
+                ctx.violations.append({"what": "Maven: ordering differs from ComparableVersion (maven-artifact 3.8.x)",
                                        "input": {"system": NAME, "a": a, "b": b}, "observed": g, "required": sp,
                                        "kind": "oracle", "known": known})
         if len(ref_pairs) < ctx.scale(600, 6000):
@@ -242,6 +242,46 @@ def c02(ctx):
                                        "input": {"system": NAME, "a": a, "b": b}, "observed": int(g), "required": r,
                                        "kind": "oracle", "known": known})
         ctx.count("maven:c02:dotted:compared-with-jar", len(DOTTED_PAIRS))
+        # the specification (ComparableVersion 3.8.x since the '.'-qualifier revision) must agree with the jar here too
+        spd = mg.model_pairs(ctx, "svm_spec_maven", DOTTED_PAIRS)
+        badd = [(a, b, sp[1], r) for (a, b), sp, r in zip(DOTTED_PAIRS, spd, jar) if sp[1] != r]
+        ctx.count("maven:spec-vs-jar:dotted-pairs", len(DOTTED_PAIRS))
+        ctx.count("maven:spec-vs-jar:dotted-mismatch", len(badd))
+        for a, b, sp, r in badd[:10]:
+            ctx.divergence("spec_maven_vs_jar", {"a": a, "b": b, "what": "Spec/MavenSpec.v differs from the installed ComparableVersion (qualifier attached by '.')"}, r, sp)
+        # ... and on exotic strings (several qualifiers, empty components, digit/letter transitions)
+        toks = [b"1", b"0", b"2", b"10", b".", b".", b"-", b"alpha", b"x", b"rc", b"1a", b"a1", b"sp", b"final", b"ga", b"SNAPSHOT", b"00", b"b", b"m"]
+        ex = set()
+        while len(ex) < ctx.scale(300, 1200):
+            t = b"".join(rng.choice(toks) for _ in range(rng.randrange(1, 7)))
+            if t and t[:1] != b"-":
+                ex.add(t)
+        ex = sorted(ex)
+        exp = [(rng.choice(ex), rng.choice(ex)) for _ in range(ctx.scale(2000, 20000))]
+        exj = mg.comparable_version_ref(exp)
+        if exj is not None:
+            exs = mg.model_pairs(ctx, "svm_spec_maven", exp)
+            bade = [(a, b, sp[1], r) for (a, b), sp, r in zip(exp, exs, exj) if sp[1] != r]
+            ctx.count("maven:spec-vs-jar:exotic-pairs", len(exp))
+            ctx.count("maven:spec-vs-jar:exotic-mismatch", len(bade))
+            for a, b, sp, r in bade[:10]:
+                ctx.divergence("spec_maven_vs_jar", {"a": a, "b": b, "what": "Spec/MavenSpec.v differs from the installed ComparableVersion (exotic string)"}, r, sp)
+    # tie between dotted strings and the structures of theorem C02_maven_dotted_partial
+    # (strings whose dotted qualifier is last or directly followed by a digit: before a '-' or '.' ComparableVersion does
+    # not open a sub-list for it -- 1.SP-SNAPSHOT is [1, sp, [snapshot]] -- which the element list cannot tell from 1.SP1)
+    dstr = [x for x in mg.uniq([x for pr in DOTTED_PAIRS for x in pr])
+            if re.match(rb"^[0-9]+(\.[0-9]+)*(\.[A-Za-z_]+([0-9].*)?)?$", x)]
+    do = ctx.model("svm_maven_dot_tie", [sx([s]) for s in dstr])
+    ndom = 0
+    for s, l in zip(dstr, do):
+        v = parse_sx(l)
+        if v[0] == b"err" or not v[0]:
+            continue
+        ndom += 1
+        if not v[1]:
+            ctx.divergence("svm_maven_dot_tie", {"str": s, "what": "dashified element list does not stand for the ComparableVersion item tree of the string"}, "equal", l)
+    ctx.count("maven:c02:dotted:tie:strings", len(dstr))
+    ctx.count("maven:c02:dotted:tie:in-theorem-domain", ndom)
     # tie between strings and the structures of theorem C02_maven_partial
     tie_in = mg.uniq([versions.maven_domain(rng, exclude_release_num=True) for _ in range(ctx.scale(1500, 20000))])
     fl = domain_flags(ctx, tie_in)
